@@ -7,7 +7,7 @@ func stub(name string) func() (string, error) {
 }
 
 var (
-	genExpand    = stub("G4")
+	genExpand    = genExpandReal
 	genAccepted  = stub("G7")
 	genWriteTgz  = stub("G8")
 	genDropped   = stub("G9")
